@@ -473,10 +473,13 @@ def _prep_iterators(mol: Molecules, shape: tuple[int, int, int], scale: float):
 
     # construct matrices
     center = (np.array(shape) - 1.0) / 2.0
-    starts = intpos - center.astype(np.int32)
+    int_center = center.astype(np.int32)
+    starts = intpos - int_center
     stops = starts + shape
+    # fragments start at ``intpos - int_center``, so the template center must be
+    # mapped to ``int_center + residue`` (differs from ``center`` for even sizes).
     mtxs = _compose_affine_matrices(
-        center, mol.rotator.inv(), output_center=center + residue
+        center, mol.rotator.inv(), output_center=int_center + residue
     )
 
     return starts, stops, mtxs
